@@ -47,7 +47,15 @@ type plan struct {
 	Gap       time.Duration `json:"gap,omitempty"`
 	Calls     []callPlan    `json:"calls"`
 	History   []string      `json:"history,omitempty"` // filled in by exec (for samples and replays)
+	// Graffiti (proposal strategies): the operator's graffiti, possibly with the {{CLIENT}} template, which the
+	// strategy expands per node with that node's client name (shorter, longer or empty).
+	Graffiti string `json:"graffiti,omitempty"`
 }
+
+var graffitiPool = []string{"c07", "c07", "{{CLIENT}}", "vouch {{CLIENT}}", "{{CLIENT}}{{CLIENT}}{{CLIENT}}", "0123456789012345678901{{CLIENT}}", "{{CLIENT}} 456789012345678901"}
+
+// clientNames by node number: shorter than the template, longer, empty.
+var clientNames = []string{"teku", "lighthouse", "", "a-client-with-quite-a-long-name-indeed", "nimbus"}
 
 var timeouts = []time.Duration{2 * time.Second, time.Second, 4 * time.Second, 250 * time.Millisecond}
 
@@ -67,6 +75,7 @@ func genFor(ad *adapter) func(p *simrt.Tape) any {
 			ncalls = 2
 			pl.Gap = []time.Duration{0, time.Millisecond, pl.Timeout}[p.Pick(3)]
 		}
+		pl.Graffiti = graffitiPool[p.Pick(len(graffitiPool))]
 		lat := env.LatencyLattice(pl.Timeout)
 		for c := 0; c < ncalls; c++ {
 			cp := callPlan{Dim: p.Pick(ad.dims)}
